@@ -169,10 +169,37 @@ def _batch(job):
         finally:
             signal.alarm(0)
         # integrity entry points on the same bytes
-        for call in ("test", "testzip", "testzip_path"):
+        for call in ("test", "testzip", "testzip_path", "testzip_mp", "extract_callback"):
             signal.alarm(8)
             try:
-                if call == "testzip_path":
+                if call == "extract_callback":
+                    # extraction with a progress callback attached: the verdict is the call's, not the callback's
+                    from py7zr.callbacks import ExtractCallback
+
+                    class _Cb(ExtractCallback):
+                        def report_start_preparation(self): pass
+                        def report_start(self, p, b): pass
+                        def report_update(self, b): pass
+                        def report_end(self, p, b): pass
+                        def report_warning(self, m): pass
+                        def report_postprocess(self): pass
+                    fac2 = py7zr.io.BytesIOFactory(1 << 24)
+                    with py7zr.SevenZipFile(io.BytesIO(data), "r", **kw) as z:
+                        z.extractall(factory=fac2, callback=_Cb())
+                    got2 = {}
+                    for n, p_ in fac2.products.items():
+                        p_.seek(0)
+                        got2[n] = p_.read()
+                    if not (all(want.get(n) == b for n, b in got2.items()) and sorted(got2) == sorted(want)):
+                        res[call] = "WRONG"      # returned normally, delivered something else than what was archived
+                        continue
+                    r = None
+                elif call == "testzip_mp":
+                    with open(scratch, "wb") as f_:
+                        f_.write(data)
+                    with py7zr.SevenZipFile(scratch, "r", mp=True, **kw) as z:
+                        r = z.testzip()
+                elif call == "testzip_path":
                     # opened by name: multi-folder archives take the parallel path
                     with open(scratch, "wb") as f_:
                         f_.write(data)
@@ -242,6 +269,10 @@ def run(ctx):
                 ctx.fail("C04:testzip_certifies_damaged", "testzip() reports no damage but extraction gives %s" % r["extract"], inp)
             if r.get("testzip_path") == "good" and not extract_fine:
                 ctx.fail("C04:testzip_certifies_damaged", "testzip() on the archive opened by name reports no damage but extraction gives %s" % r["extract"], inp)
+            if r.get("testzip_mp") == "good" and not extract_fine:
+                ctx.fail("C04:testzip_certifies_damaged", "testzip() with worker processes (mp=True) reports no damage but extraction gives %s" % r["extract"], inp)
+            if r.get("extract_callback") == "WRONG":
+                ctx.fail("C04:silent_success", "extractall() with a progress callback returns normally and delivers different content (plain extraction: %s)" % r["extract"], inp)
             if r["test"] == "good" and r["testzip"] == "bad" and False:
                 pass
 
